@@ -19,8 +19,9 @@ run():
      Ed25519 signature / signed data / challenge / channel id, of WAMP-CRA keys, challenges, secrets, salts, and of
      TOTP tickets must give a rejection or a different signature.
 
-PBKDF2 through the Lean driver: all cases in the thorough tier; in the quick tier every case whose cost
-(iterations x blocks x long-key factor) is <= 2000 and every 5th of the rest — hashlib covers all of them in both tiers.
+PBKDF2 through the Lean driver: in the thorough tier all cases except two thirds of the (1 KiB secret, 4096 iterations)
+ones; in the quick tier every case whose cost (iterations x blocks x long-key factor) is <= 2000 and every 5th of the
+rest — hashlib covers all of them in both tiers.
 
 Self-test 2026-09-23 (single edits in a scratch copy of /repo/src, `VERIF_REPO=/tmp/c19mut ./check C19 --tier quick`; every
 exit 1 came with concrete replay cases (the case dict of the first failing input per key); a replay of M5's case gives exit 1
@@ -491,7 +492,7 @@ def judge_simple(J, cases, results):
             if got != ref:
                 J.violation("pbkdf2-differs-from-pbkdf2-hmac-sha256", f"pbkdf2(iters={c['iterations']}, keylen={c['keylen']}, "
                             f"|salt|={len(salt)}, |data|={len(data)}) = {got[1][:32]}.., RFC 8018 gives {ref[1][:32]}..", c, got)
-            if quick and lean_cost(c) > 2000 and idx % 5:
+            if (quick and lean_cost(c) > 2000 and idx % 5) or (not quick and lean_cost(c) > 20000 and idx % 3):
                 skip += 1
                 continue
             res.count("pbkdf2_via_lean")
@@ -606,7 +607,7 @@ def judge_simple(J, cases, results):
             continue
         res.evaluations += 1
         res.distinct.add((op, core.sha(json.dumps(c, sort_keys=True))[:16]))
-    res.count("pbkdf2_hashlib_only(quick tier: high-iteration cases not sent to the Lean driver)", skip)
+    res.count("pbkdf2_hashlib_only(high-cost cases not sent to the Lean driver)", skip)
 
 
 def judge_totp(J, cases, results):
@@ -1047,8 +1048,9 @@ def run(ctx):
     res.notes.append("libraries: " + json.dumps(libs, sort_keys=True))
     res.notes.append("independent Argon2id: " + ("cryptography/OpenSSL (different implementation from argon2-cffi)" if libs.get("independent_argon2id")
                                                   else "NOT AVAILABLE (argon2 cases not judged against an independent implementation)"))
-    res.notes.append("PBKDF2: hashlib (OpenSSL via CPython) is compared on every case; the Lean reference on all cases in the thorough tier and on "
-                     "the low-cost ones plus every 5th high-iteration case in the quick tier (see input_distribution pbkdf2_via_lean)")
+    res.notes.append("PBKDF2: hashlib (OpenSSL via CPython) is compared on every case; the Lean reference on all cases but two thirds of the (1 KiB secret, "
+                     "4096 iterations) ones in the thorough tier and on the low-cost ones plus every 5th high-iteration case in the quick tier "
+                     "(see input_distribution pbkdf2_via_lean / pbkdf2_hashlib_only)")
     J = Judge(ctx, res)
     judge_simple(J, cases, results)
     judge_totp(J, cases, results)
